@@ -122,7 +122,16 @@ pub fn apply_reader_masks(expected: &mut CClass, obs: &mut Obs) {
 
 pub fn read_and_project(bytes: &[u8]) -> Result<CClass, String> {
 	let tree = duke::read_class(&mut Cursor::new(bytes)).map_err(|e| format!("duke::read_class rejected a well-formed class file: {e:#}"))?;
-	project(&tree).map_err(|e| format!("the tree delivered by the reader is inconsistent: {e}"))
+	let p = project(&tree).map_err(|e| format!("the tree delivered by the reader is inconsistent: {e}"))?;
+	// a source that hands out only a few bytes per `read` call must give the same class
+	if bytes.len() < 8000 {
+		let t2 = duke::read_class(&mut crate::engine::ShortReads::new(bytes)).map_err(|e| format!("duke::read_class fails on a source with short reads: {e:#}"))?;
+		let p2 = project(&t2).map_err(|e| format!("the tree delivered by the reader (short reads) is inconsistent: {e}"))?;
+		if p2 != p {
+			return Err(format!("reading from a source with short reads gives another class: {}", first_diff(&p, &p2)));
+		}
+	}
+	Ok(p)
 }
 
 pub fn labels_for(m: &CClass, forms: &[&'static str], obs: &mut Obs) {
